@@ -1,8 +1,51 @@
-/- line-protocol handlers for C11 (stub: not built yet) -/
+/- line-protocol handlers for C11 (projective measurement on an ascending qubit subset) -/
 import Driver.Loop
+import Driver.C03
+import NumqiModel.Measure
 
 namespace Numqi.Driver.C11
+open Numqi Numqi.Driver.C03
 
-def handle (_args : List String) : String := "bad-op"
+section
+variable {α : Type} [Add α] [Mul α] [Zero α] [One α] [Conj α]
+
+def handleR (car : Carrier α) (args : List String) : String :=
+  match args with
+  | ["measure", n, s, ind1, psi] => Id.run do
+      let some n := n.toNat? | return "bad-op"
+      let some s := parseIdx? s | return "bad-op"
+      let some ind1 := ind1.toNat? | return "bad-op"
+      let some psi := parseArr car psi | return "bad-op"
+      if psi.size ≠ 2 ^ n || ind1 ≥ 2 ^ s.length then return "bad-op"
+      let o := bitstrOf s.length ind1
+      match (RawOp.measure (α := α) s o).compile n with
+      | some (.measure idx ob) =>
+          let prob := strArr car (tabulate (reduceToProbability idx (lookup (n := n) psi)))
+          let proj := strArr car (tabulate (project idx ob (lookup (n := n) psi)))
+          let sl := s.map Int.toNat
+          let probG := strArr car (probGrouped n sl psi)
+          let projG := strArr car (projectGrouped n sl ind1 psi)
+          let flag := if prob == probG && proj == projG then "grouped=bitwise" else "MODEL-MISMATCH"
+          return s!"{bitsStr o} {prob} {proj} {flag}"
+      | _ => return "error"
+  | ["grouping", n, s] => Id.run do
+      let some n := n.toNat? | return "bad-op"
+      let some s := parseNatList? s | return "bad-op"
+      let (shape, keep, red) := measureGrouping n s
+      let f := fun (l : List Nat) => if l.isEmpty then "-" else natListStr l
+      return s!"{f shape} {f keep} {f red}"
+  | ["kept", n, s] => Id.run do
+      let some n := n.toNat? | return "bad-op"
+      let some s := parseNatList? s | return "bad-op"
+      return natListStr ((List.range (2 ^ n)).map (keptIndexGrouped n s))
+  | _ => "bad-op"
+end
+
+def handle (args : List String) : String :=
+  match args with
+  | "circ" :: rest => C03.handle ("circ" :: rest)
+  | op :: "Z" :: rest => handleR carZ (op :: rest)
+  | op :: "Q" :: rest => handleR carQ (op :: rest)
+  | args => handleR carZ args
 
 end Numqi.Driver.C11
